@@ -392,7 +392,11 @@ def gen_gc_case(seed, tier):
             events.append([ch.pick(W, ("rna", j), younger), "lease", e[2], e[3], e[4], e[5]])
     return {"engine": "crawlsim", "seed": seed,
             "cfg": {"enabled": enabled, "mode": mode, "override": override, "cutoff_age": cutoff_age, "sharetypes": sharetypes,
-                    "cycles": ch.pick("config", "cycles", [1, 1, 2])},
+                    "cycles": ch.pick("config", "cycles", [1, 1, 2]),
+                    # a slow disk: simulated seconds consumed per examined bucket (the crawler's time slice is 1 s, so
+                    # the cycle then needs several slices), and all buckets crowded into few prefix directories
+                    "bucket_cost": ch.pick("config", "bucket_cost", [0, 0, 0.3, 0.6, 1.2]),
+                    "nprefixes": ch.pick("config", "nprefixes", [1024, 1024, 1, 2])},
             "ops": events}
 
 
@@ -431,7 +435,7 @@ def execute_gc(case):
             R._now = now
         now = R.true_seconds()
         R.note("%r" % (e,))
-        si = si_for(bucket % 1024, 1000 + bucket)
+        si = si_for(bucket % cfg.get("nprefixes", 1024), 1000 + bucket)
         secidx = s * 10 + l
         if s not in model:
             shnum = len([m for m in model.values() if m["bucket"] == bucket])
@@ -467,8 +471,18 @@ def execute_gc(case):
     ss2.bucket_counter.disownServiceParent()
     lc = ss2.lease_checker
     lc.disownServiceParent()
-    lc.startService()
     probes = {}
+    cost = cfg.get("bucket_cost", 0)
+    if cost:
+        orig_pb = lc.process_bucket
+
+        def slow_process_bucket(*a, **kw):
+            r = orig_pb(*a, **kw)
+            R._now += cost          # the disk was slow: this much of the time slice is gone
+            probes["slow-bucket"] = probes.get("slow-bucket", 0) + 1
+            return r
+        lc.process_bucket = slow_process_bucket
+    lc.startService()
 
     def expected(now):
         exp = {}
@@ -492,15 +506,30 @@ def execute_gc(case):
                          "detail": "exception escaped the lease crawler:\n" + R.errors[0][1][-1500:]})
             break
         st = lc.get_state()
+        for _ in range(400):
+            # a cycle that needs several time slices sleeps between them; give it simulated time (the next cycle cannot
+            # start before minimum_cycle_time = 12 h)
+            if st.get("last-cycle-finished") == cyc or R.errors:
+                break
+            R.advance(15)
+            st = lc.get_state()
+            probes["waited-for-multi-slice-cycle"] = probes.get("waited-for-multi-slice-cycle", 0) + 1
         if st.get("last-cycle-finished") != cyc:
             viol.append({"clause": "C26.cycle-not-finished", "sig": "C26.cycle-not-finished",
                          "detail": "after the crawl slot, last-cycle-finished=%r, expected %d" % (st.get("last-cycle-finished"), cyc)})
             break
         now = T if cyc == 0 else R.true_seconds()
         exp = expected(now)
+        # with a slow disk the shares are examined over an interval, not at one instant: a lease whose verdict differs
+        # between the start and the end of that interval is a boundary case (either outcome is right)
+        exp_end = expected(R.true_seconds())
+        exp_start = expected(now - 3 * CRAWL_DELAY)
+        for s_ in exp:
+            if exp_end[s_][0] != exp[s_][0] or exp_start[s_][0] != exp[s_][0]:
+                exp[s_] = (exp[s_][0], True)
         removed = 0
         for s, m in sorted(model.items()):
-            si = si_for(m["bucket"] % 1024, 1000 + m["bucket"])
+            si = si_for(m["bucket"] % cfg.get("nprefixes", 1024), 1000 + m["bucket"])
             path = os.path.join(ss2.sharedir, storage_index_to_dir(si), "%d" % m["shnum"])
             exists = os.path.exists(path)
             must_delete, boundary = exp[s]
